@@ -42,19 +42,31 @@ const workerMarker = "verif/props/c14.roundWorker"
 // the goroutine dump classifier recognises workers.
 //
 //go:noinline
-func roundWorker(f func(), wg *sync.WaitGroup, finished *atomic.Int64) {
+func roundWorker(f func(), wg *sync.WaitGroup, finished *atomic.Int64, ids *sync.Map) {
 	defer wg.Done()
 	defer finished.Add(1)
+	ids.Store(curGoroutineID(), true)
 	f()
 }
 
+func curGoroutineID() string {
+	var buf [64]byte
+	s := string(buf[:runtime.Stack(buf[:], false)])
+	s = strings.TrimPrefix(s, "goroutine ")
+	if i := strings.IndexByte(s, ' '); i > 0 {
+		return s[:i]
+	}
+	return "?"
+}
+
 type goroutineInfo struct {
+	id     string
 	header string
 	state  string
 	stack  string
 }
 
-var goroutineHeader = regexp.MustCompile(`^goroutine \d+ (?:gp=\S+ m=\S+(?: mp=\S+)? )?\[([^\]]*)\]:`)
+var goroutineHeader = regexp.MustCompile(`^goroutine (\d+) (?:gp=\S+ m=\S+(?: mp=\S+)? )?\[([^\]]*)\]:`)
 
 func parseDump(dump string) []goroutineInfo {
 	var out []goroutineInfo
@@ -65,22 +77,25 @@ func parseDump(dump string) []goroutineInfo {
 		if m == nil {
 			continue
 		}
-		state := m[1]
+		state := m[2]
 		if i := strings.Index(state, ","); i >= 0 {
 			state = state[:i]
 		}
-		out = append(out, goroutineInfo{header: first, state: state, stack: block})
+		out = append(out, goroutineInfo{id: m[1], header: first, state: state, stack: block})
 	}
 	return out
 }
 
 // classify inspects the workers of the current round in a goroutine dump.
-func classify(dump string) (deadlock bool, blockedIn string, summary string) {
+func classify(dump string, ids *sync.Map) (deadlock bool, blockedIn string, summary string) {
 	workers, blocked := 0, 0
 	var sites []string
 	for _, g := range parseDump(dump) {
 		if !strings.Contains(g.stack, workerMarker) {
 			continue
+		}
+		if _, mine := ids.Load(g.id); !mine {
+			continue // a worker left behind by an earlier round that hung
 		}
 		workers++
 		inRepo := strings.Contains(g.stack, "github.com/buildbarn/bb-remote-execution/")
@@ -139,9 +154,10 @@ func runRound(r *ev.Run, name string, witness any, progress *atomic.Int64, worke
 	var wg sync.WaitGroup
 	var finished atomic.Int64
 	done := make(chan struct{})
+	var ids sync.Map
 	for _, w := range workers {
 		wg.Add(1)
-		go roundWorker(w, &wg, &finished)
+		go roundWorker(w, &wg, &finished, &ids)
 	}
 	go func() { wg.Wait(); close(done) }()
 
@@ -166,7 +182,7 @@ func runRound(r *ev.Run, name string, witness any, progress *atomic.Int64, worke
 			continue
 		}
 		dump := allStacks()
-		isDeadlock, site, summary := classify(dump)
+		isDeadlock, site, summary := classify(dump, &ids)
 		if isDeadlock {
 			deadlockLooks++
 			if deadlockLooks >= 3 {
